@@ -8,6 +8,7 @@ import FxpVerif.Props.C18
 import FxpVerif.Props.C14
 import FxpVerif.Props.C20
 import FxpVerif.Props.C03
+import FxpVerif.Model.Resize
 /-!
 # Source tie: the definitions generated from `fxpmath/functions.py` are the rules the theorems speak about
 
@@ -227,6 +228,100 @@ theorem int_clip_elem (f : Fmt) (k : Int) : Gen.intClipElem k f.lo f.hi = sat f 
   | rfl
   | (simp; done)
   | omega
+
+
+/-! ## Size resolution of `Fxp.resize`: one generated definition per pattern of given arguments, each equal to the model's `resizeMeta` -/
+
+/-- the size attributes as the tuple the generated definitions return. -/
+def metaOf (t : Bool × Int × Int × Int) : Meta := ⟨t.1, t.2.1, t.2.2.1, t.2.2.2⟩
+
+macro "resize_tac" : tactic => `(tactic|
+  (simp only [resizeMeta, resolveNInt, storeSizes, signBit, metaOf, Option.getD, Option.isSome, Bool.or_false, Bool.false_or,
+              Bool.false_eq_true, if_false, Option.some.injEq, Meta.mk.injEq] <;>
+   first
+   | (refine ⟨?_, ?_, ?_, ?_⟩ <;> first | rfl | omega | (simp; done) | (split <;> omega))
+   | (simp <;> omega)
+   | omega))
+
+theorem resize_sizes_0000 (old : Meta) (s : Bool) (w f i : Int) :
+    resizeMeta old { signed := none, nword := none, nfrac := none, nint := none } =
+      some (metaOf (Gen.resizeSizes_0000 old.signed old.nword old.nint old.nfrac s w f i)) := by
+  unfold Gen.resizeSizes_0000; resize_tac
+
+theorem resize_sizes_0001 (old : Meta) (s : Bool) (w f i : Int) :
+    resizeMeta old { signed := none, nword := none, nfrac := none, nint := some i } =
+      some (metaOf (Gen.resizeSizes_0001 old.signed old.nword old.nint old.nfrac s w f i)) := by
+  unfold Gen.resizeSizes_0001; resize_tac
+
+theorem resize_sizes_0010 (old : Meta) (s : Bool) (w f i : Int) :
+    resizeMeta old { signed := none, nword := none, nfrac := some f, nint := none } =
+      some (metaOf (Gen.resizeSizes_0010 old.signed old.nword old.nint old.nfrac s w f i)) := by
+  unfold Gen.resizeSizes_0010; resize_tac
+
+theorem resize_sizes_0011 (old : Meta) (s : Bool) (w f i : Int) :
+    resizeMeta old { signed := none, nword := none, nfrac := some f, nint := some i } =
+      some (metaOf (Gen.resizeSizes_0011 old.signed old.nword old.nint old.nfrac s w f i)) := by
+  unfold Gen.resizeSizes_0011; resize_tac
+
+theorem resize_sizes_0100 (old : Meta) (s : Bool) (w f i : Int) :
+    resizeMeta old { signed := none, nword := some w, nfrac := none, nint := none } =
+      some (metaOf (Gen.resizeSizes_0100 old.signed old.nword old.nint old.nfrac s w f i)) := by
+  unfold Gen.resizeSizes_0100; resize_tac
+
+theorem resize_sizes_0101 (old : Meta) (s : Bool) (w f i : Int) :
+    resizeMeta old { signed := none, nword := some w, nfrac := none, nint := some i } =
+      some (metaOf (Gen.resizeSizes_0101 old.signed old.nword old.nint old.nfrac s w f i)) := by
+  unfold Gen.resizeSizes_0101; resize_tac
+
+theorem resize_sizes_0110 (old : Meta) (s : Bool) (w f i : Int) :
+    resizeMeta old { signed := none, nword := some w, nfrac := some f, nint := none } =
+      some (metaOf (Gen.resizeSizes_0110 old.signed old.nword old.nint old.nfrac s w f i)) := by
+  unfold Gen.resizeSizes_0110; resize_tac
+
+theorem resize_sizes_0111 (old : Meta) (s : Bool) (w f i : Int) :
+    resizeMeta old { signed := none, nword := some w, nfrac := some f, nint := some i } =
+      some (metaOf (Gen.resizeSizes_0111 old.signed old.nword old.nint old.nfrac s w f i)) := by
+  unfold Gen.resizeSizes_0111; resize_tac
+
+theorem resize_sizes_1000 (old : Meta) (s : Bool) (w f i : Int) :
+    resizeMeta old { signed := some s, nword := none, nfrac := none, nint := none } =
+      some (metaOf (Gen.resizeSizes_1000 old.signed old.nword old.nint old.nfrac s w f i)) := by
+  unfold Gen.resizeSizes_1000; resize_tac
+
+theorem resize_sizes_1001 (old : Meta) (s : Bool) (w f i : Int) :
+    resizeMeta old { signed := some s, nword := none, nfrac := none, nint := some i } =
+      some (metaOf (Gen.resizeSizes_1001 old.signed old.nword old.nint old.nfrac s w f i)) := by
+  unfold Gen.resizeSizes_1001; resize_tac
+
+theorem resize_sizes_1010 (old : Meta) (s : Bool) (w f i : Int) :
+    resizeMeta old { signed := some s, nword := none, nfrac := some f, nint := none } =
+      some (metaOf (Gen.resizeSizes_1010 old.signed old.nword old.nint old.nfrac s w f i)) := by
+  unfold Gen.resizeSizes_1010; resize_tac
+
+theorem resize_sizes_1011 (old : Meta) (s : Bool) (w f i : Int) :
+    resizeMeta old { signed := some s, nword := none, nfrac := some f, nint := some i } =
+      some (metaOf (Gen.resizeSizes_1011 old.signed old.nword old.nint old.nfrac s w f i)) := by
+  unfold Gen.resizeSizes_1011; resize_tac
+
+theorem resize_sizes_1100 (old : Meta) (s : Bool) (w f i : Int) :
+    resizeMeta old { signed := some s, nword := some w, nfrac := none, nint := none } =
+      some (metaOf (Gen.resizeSizes_1100 old.signed old.nword old.nint old.nfrac s w f i)) := by
+  unfold Gen.resizeSizes_1100; resize_tac
+
+theorem resize_sizes_1101 (old : Meta) (s : Bool) (w f i : Int) :
+    resizeMeta old { signed := some s, nword := some w, nfrac := none, nint := some i } =
+      some (metaOf (Gen.resizeSizes_1101 old.signed old.nword old.nint old.nfrac s w f i)) := by
+  unfold Gen.resizeSizes_1101; resize_tac
+
+theorem resize_sizes_1110 (old : Meta) (s : Bool) (w f i : Int) :
+    resizeMeta old { signed := some s, nword := some w, nfrac := some f, nint := none } =
+      some (metaOf (Gen.resizeSizes_1110 old.signed old.nword old.nint old.nfrac s w f i)) := by
+  unfold Gen.resizeSizes_1110; resize_tac
+
+theorem resize_sizes_1111 (old : Meta) (s : Bool) (w f i : Int) :
+    resizeMeta old { signed := some s, nword := some w, nfrac := some f, nint := some i } =
+      some (metaOf (Gen.resizeSizes_1111 old.signed old.nword old.nint old.nfrac s w f i)) := by
+  unfold Gen.resizeSizes_1111; resize_tac
 
 
 /-! ## The property theorems, restated about the generated rules
